@@ -102,6 +102,11 @@ def handle (op real : String) : Verdict :=
     -- the hosts tried are a function of the documented policy (regenerated from the code's decision functions),
     -- the plan order and what each attempt was answered with
     { kind := "spec", sig, key := "C05:attempts-differ-from-policy", detail := s!"expected {model}: {op} -> {real}" }
+  else if st.reply == some .noMoreHosts && realReply != "nomorehosts" && (splitNE real " ").any (·.startsWith "reply:") then
+    -- "a 'no more hosts' error exactly when every host has been tried"
+    { kind := "spec", sig, key := "C05:exhaustion-reply", detail := s!"every host of the plan was tried; the client must get the proxy's no-more-hosts error, it got {realReply}: {op} -> {real}" }
+  else if st.reply != some .noMoreHosts && realReply == "nomorehosts" then
+    { kind := "spec", sig, key := "C05:exhaustion-reply", detail := s!"the client got the no-more-hosts error although the plan was not exhausted (expected {renderReply st.reply}): {op} -> {real}" }
   else if model ≠ real then { kind := "diff", sig, detail := model }
   else { kind := "ok", sig }
 
